@@ -5,3 +5,4 @@ pub mod tabmodel; // C15: TabletsInfo model (H-TABLETS) + reference map glue
 pub mod baton; // C19-B: E-THREAD baton scheduler (two OS threads at hooked yield points)
 pub mod router_harness; // C02-B / C10-A: E-ASYNC world around the real Connection::router (H-CONN-ROUTER), scripted peer, frame helper
 pub mod specmodel; // C13: reference model of the speculative-execution contract
+pub mod execharness; // C06-B/C13-B: recording retry policy + history listener for runs through H-EXEC
